@@ -142,7 +142,7 @@ func (m *Mat) Add(a, b mat.Matrix) {
 
 // VecRow returns the elements in the ith row of the receiver.
 func (m *Mat) VecRow(i int) Vec {
-	if i > 2 {
+	if uint(i) > 2 {
 		panic(mat.ErrRowAccess)
 	}
 	if m.data == nil {
@@ -153,7 +153,7 @@ func (m *Mat) VecRow(i int) Vec {
 
 // VecCol returns the elements in the jth column of the receiver.
 func (m *Mat) VecCol(j int) Vec {
-	if j > 2 {
+	if uint(j) > 2 {
 		panic(mat.ErrColAccess)
 	}
 	if m.data == nil {
